@@ -113,6 +113,10 @@ CONFIGS = {
                alphabet=[I("hold", 1)]),
   "soupfix2": dict(np=5, prio=[0, 1, 1, 0, 2], auto=[1, 1, 1, 1, 1], nres=2, poolcap=3, bufcap=3, oqcap=2, pqcap=2, maxlen=12, maxtime=99,
                uevs=[(1, 1, I("csig"))], alphabet=[I("hold", 1)]),
+  # recording a pool while a process part-way through an acquisition is thrown out of it from elsewhere (preemption of a resource, interrupt)
+  "rec3x": dict(np=3, prio=[0, 0, 1], auto=[1, 1, 1], nres=1, poolcap=2, maxlen=3, maxtime=4,
+               alphabet=[I("hold", 1), I("acq", 1), I("pre", 1), I("pacq", 1), I("pacq", 2), I("prel", 1), I("rec", 3, 1), I("rec", 1, 1), I("intr", 1, 9, 0), I("stop", 1, 5)],
+               roles=[["hold", "acq", "pacq"], ["rec", "hold", "pacq", "prel"], ["hold", "pacq", "pre", "intr", "stop"]]),
   # subscribe / unsubscribe: is a release forwarded exactly while the condition is registered?
   "cond2u": dict(np=2, prio=[0, 0], auto=[1, 1], nres=1, poolcap=1, maxlen=5, maxtime=4,
                alphabet=[I("hold", 1), I("cwait", 2), I("csub", 0), I("cunsub", 0), I("acq", 1), I("rel", 1)]),
@@ -149,7 +153,7 @@ FOR_PROPERTY = {
   "C11": (["buf2", "x3buf"], ["buf3"]),
   "C12": (["queue2", "x3oq"], ["queue3", "x3pq"]),
   "C13": (["cond2", "cond3s", "cond2u"], ["cond3", "x3cond"]),
-  "C14": (["rec2q", "rec2pq", "rec2w", "rec2v"], ["rec2", "rec2p", "rec2b"]),
+  "C14": (["rec2q", "rec2pq", "rec2w", "rec2v", "rec3x"], ["rec2", "rec2p", "rec2b"]),
   "C05": (["mutex2", "x3res"], ["mutex2p", "mutex3", "lost2"]),
   "C06": (["order3", "cond4o"], ["order3e", "pool3", "x3res"]),
   "C07": (["pool2", "pool3p"], ["pool3", "x3pool"]),
